@@ -56,16 +56,23 @@ type scriptLimit struct {
 	i    int
 	Got  []Sample
 	sc   *sched
+	// Off: moved by the harness between samples - an estimate that also changes for reasons other than the
+	// limiter's own samples (a settable limit, an algorithm instance shared with another limiter)
+	Off int
 }
 
 func (s *scriptLimit) EstimatedLimit() int {
-	if len(s.traj) == 0 {
-		return 10
+	v := 10
+	if len(s.traj) > 0 {
+		v = s.traj[len(s.traj)-1]
+		if s.i < len(s.traj) {
+			v = s.traj[s.i]
+		}
 	}
-	if s.i >= len(s.traj) {
-		return s.traj[len(s.traj)-1]
+	if v += s.Off; v > math.MaxInt32 {
+		v = math.MaxInt32 // the strategies keep limits in 32 bits: larger estimates are outside their domain
 	}
-	return s.traj[s.i]
+	return v
 }
 func (s *scriptLimit) NotifyOnChange(core.LimitChangeListener) {}
 func (s *scriptLimit) OnSample(start, rtt int64, inf int, drop bool) {
@@ -121,6 +128,27 @@ func genDL(purpose string) func(t *rapid.T) dlCase {
 					rapid.SampledFrom([]int{32767, 32768, 40000, 65535, 65536, 70000, 1 << 20, 1 << 30, math.MaxInt32}))
 			}
 			c.Traj = rapid.SliceOfN(el, 1, 12).Draw(t, "traj")
+			if purpose == "c05" && len(c03Noisy) > 0 && rapid.IntRange(0, 4).Draw(t, "noisyShare") == 0 {
+				// a fraction and estimates whose product is an integer plus / minus float noise: the share is the ceiling
+				// of the double product, not of a tidied-up value
+				np := c03Noisy[rapid.IntRange(0, len(c03Noisy)-1).Draw(t, "noisyPair")]
+				if np.F <= 0.5 {
+					c.FracA = np.F
+					if c.FracB > 0.5 {
+						c.FracB = 0.25
+					}
+					for i := range c.Traj {
+						if i%2 == 1 || len(c.Traj) == 1 {
+							c.Traj[i] = np.L
+						}
+					}
+					for _, q := range c03Noisy {
+						if q.F == np.F && rapid.IntRange(0, 3).Draw(t, "moreNoisy") == 0 {
+							c.Traj = append(c.Traj, q.L)
+						}
+					}
+				}
+			}
 			if purpose == "c05" {
 				// the strategy may have been constructed with any limit, also a non-positive one or the very
 				// value the first estimate has
@@ -143,6 +171,9 @@ func genDL(purpose string) func(t *rapid.T) dlCase {
 				return dlEv{K: "cycle", N: rapid.IntRange(2, 16).Draw(t, "n"), Key: rapid.SampledFrom([]string{"a", "b"}).Draw(t, "ckey"),
 					Ns:      rapid.SampledFrom([]int64{1, 1000, 100_000, 1_000_000, 3_000_000}).Draw(t, "cns"),
 					Outcome: rapid.SampledFrom([]int{0, 0, 0, 0, 0, 1, 2}).Draw(t, "coutcome")}
+			case k == 16 && purpose == "c05" && c.Limit.Algo == "script" && rapid.IntRange(0, 1).Draw(t, "driftEv") == 0:
+				// the estimate moves for a reason other than this limiter's samples
+				return dlEv{K: "drift", N: rapid.SampledFrom([]int{-3, -1, 1, 1, 2, 5}).Draw(t, "drift")}
 			case k < 8:
 				return dlEv{K: "acq", Key: rapid.SampledFrom([]string{"a", "a", "b", "zz", "c"}).Draw(t, "key"), Dead: rapid.IntRange(0, 7).Draw(t, "dead") == 0}
 			case k < 16:
@@ -416,6 +447,8 @@ func runDLInBubble(c dlCase, prop string) (out kit.Outcome) {
 		lastEnforced                                        = -1
 		maxLimitSeen                                        int
 		dynParts                                            bool
+		driftPending                                        bool
+		driftSeenAt                                         int
 	)
 	est := func() int { return b.limit.EstimatedLimit() }
 	enforced := func() int {
@@ -484,6 +517,12 @@ func runDLInBubble(c dlCase, prop string) (out kit.Outcome) {
 		switch e.K {
 		case "sleep":
 			time.Sleep(time.Duration(e.Ns))
+		case "drift":
+			if b.script != nil {
+				b.script.Off += e.N
+				driftPending = true // enforcement legitimately lags until the next update completes
+				driftSeenAt = len(b.script.Got)
+			}
 		case "prm":
 			if b.lookup != nil || b.pred != nil {
 				b.removePart(e.Key)
@@ -610,7 +649,11 @@ func runDLInBubble(c dlCase, prop string) (out kit.Outcome) {
 				}
 			}
 		}
-		if prop == "c05" {
+		if driftPending && b.script != nil && len(b.script.Got) > driftSeenAt {
+			driftPending = false // an update has completed since the estimate moved on its own: enforcement must have caught up
+			out.Labels = append(out.Labels, "update-after-out-of-band-move")
+		}
+		if prop == "c05" && !driftPending {
 			if o := checkEnforcement(fmt.Sprintf("after event %d (%s)", i, e.K)); o != nil {
 				return *o
 			}
